@@ -202,11 +202,16 @@ MALFORMED_CLASSES = ["non-numeric", "missing-blank", "unknown-symbol",
                      "empty", "symbol-only", "number-only", "zero-division",
                      "double-point", "tab-separator", "other-type-symbol",
                      "garbage-exponent", "nan", "mutated",
-                     "non-decimal-digits", "percent-sign"]
+                     "non-decimal-digits", "percent-sign",
+                     "symbol-of-a-rejected-declaration"]
+
+
+_REJ = [0]
 
 
 def malformed_sub(chk, rng, w, wid, sym):
     cls = rng.choice(MALFORMED_CLASSES)
+    pre_steps = []
     tname = w.units[sym].tname
     use_type = rng.random() < 0.5
     if cls == "non-numeric":
@@ -259,6 +264,21 @@ def malformed_sub(chk, rng, w, wid, sym):
                          c.strip().split(" ", 1)[0][:1].isdigit())]
         txt = rng.choice(cands)
         use_type = rng.random() < 0.5
+    elif cls == "symbol-of-a-rejected-declaration":
+        # a symbol somebody tried to declare (the attempt was refused) is
+        # still an unknown symbol
+        _REJ[0] += 1
+        rsym = "XR%d" % _REJ[0]
+        MON = ["g", "quantity.money:Money"]
+        bad_kw = rng.choice([{"smallest_fraction": ["s", "0.03"]},
+                             {"smallest_fraction": ["i", 0]},
+                             {"minor_unit": ["i", -1]},
+                             {"minor_unit": ["i", 2],
+                              "smallest_fraction": ["D", "0.001"]}])
+        txt = "5 " + rsym
+        use_type = False
+        pre_steps = [{"k": "rej", "e": ["m", MON, "new_unit",
+                                       [["s", rsym], ["s", "n"]], bad_kw]}]
     elif cls == "nan":
         txt = rng.choice(["nan", "inf", "-inf", "NaN", "Infinity"]) + " " + sym
     else:
@@ -269,12 +289,15 @@ def malformed_sub(chk, rng, w, wid, sym):
             i = rng.randrange(base.index(" "))
         txt = base[:i] + c + base[i + 1:]
     fac = typed(sym) if use_type else QUANTITY
-    steps = [{"k": "r", "e": ["c", fac, [["s", txt]]]}]
+    steps = pre_steps + [{"k": "r", "e": ["c", fac, [["s", txt]]]}]
 
     def judge(obs):
         r = (obs or {}).get("r")
         if r is None:
             chk.inconclusive_because("malformed case not observed")
+            return
+        if pre_steps and (obs.get("rej") or {}).get("k") != "E":
+            chk.count("malformed|declaration was not refused (C16's)")
             return
         chk.case((wid, "malformed", txt, use_type))
         chk.count("malformed|" + cls)
